@@ -54,6 +54,10 @@ type JApiCore struct {
 	// This property is used for processing INCLUDE keywords.
 	scannersStack *scanner.Stack
 
+	// resumedAfterInclude is true right after an included file is finished, i.e.
+	// when the next lexeme may still belong to the line of the INCLUDE directive.
+	resumedAfterInclude bool
+
 	// currentContextDirective is current context for adding a child directive.
 	currentContextDirective *directive.Directive
 
